@@ -163,6 +163,15 @@ class C09(CaseCheck):
             if rng.random() < 0.3:      # tampered entry next to the honest one
                 items = self_items + [t]
             lines.append("pipeline firm=%d rollup=r1 items=%s" % (firm, ",".join(items)))
+        # genuine blobs of OTHER rollups of the same block posted into this rollup's namespace (valid proofs!)
+        for h in heights:
+            foreign = [r for r in data[h] if r != "r1"]
+            if foreign:
+                f = rng.choice(foreign)
+                own = ["d%d:r1" % h] if "r1" in data[h] else []
+                lines.append("pipeline firm=%d rollup=r1 items=m%d,d%d:%s%s" % (firm, h, h, f, "".join("," + x for x in own)))
+                if own and rng.random() < 0.5:
+                    lines.append("pipeline firm=%d rollup=r1 items=m%d,%s,d%d:%s" % (firm, h, own[0], h, f))
         # two-step replays against the verifier's cache (one verifier per case, as in one conductor process):
         # the honest block was verified above; now metadata that re-uses its hash under another height, alone and
         # together with its own (honest-looking) rollup data, and junk rollup entries placed BEFORE the genuine one
@@ -299,7 +308,8 @@ class C09(CaseCheck):
                         wf = 0
                     txs = self.code("txs:%d:%s" % (k, r)) if tam.startswith(("pidx=", "psize=", "ppath")) else self.code("txs:%d:%s:%s" % (k, r, tam))
                 uid += 1
-                e = "%d:%d:%d:%d:%d" % (self.code("hash:" + hx), uid, wf, audit, txs)
+                own = 1 if (tam[4:] if tam.startswith("rid=") else r) == target else 0
+                e = "%d:%d:%d:%d:%d:%d" % (self.code("hash:" + hx), uid, wf, audit, txs, own)
                 if newblob:
                     rollups.append([])
                 rollups[-1].append(e)
